@@ -174,7 +174,7 @@ def register_filehasher(reg):
       props=["C02", "C10"],
       params={"self": FH},
       requires=["self.amount >= 1 and is_pow2(self.amount)", "file_open(self.current)"],
-      modifies=["self.piece_layer", "self.layer_hashes", "self.root", "self.current"],
+      modifies=["self.piece_layer", "self.layer_hashes", "self.root"],
       ensures=[
           ("C02", "piece_layer_is_the_concatenation_of_the_layer_hashes_without_padding",
            "self.piece_layer == bytes_join(old(self.layer_hashes))"),
@@ -198,6 +198,7 @@ def register_filehasher_next(reg):
       props=["C02", "C03", "C10"],
       params={"self": FH},
       merge_ifs=False,
+      shards=6,
       requires=["self.piece_length >= 16384 and is_pow2(self.piece_length)", "self.amount * 16384 == self.piece_length",
                 "self.amount >= 1 and is_pow2(self.amount)", "file_open(self.current) or self.end"],
       returns="any",
@@ -212,8 +213,9 @@ def register_filehasher_next(reg):
            "implies(" + NL + " < self.amount and len(old(self.layer_hashes)) > 0, len(blocks) == self.amount) and "
            "implies(" + NL + " < self.amount and len(old(self.layer_hashes)) == 0, is_pow2(len(blocks)) and " + NL + " <= len(blocks) < 2 * " + NL + ")"),
           ("C03", "hybrid_v1_piece_is_sha1_of_the_piece_zero_padded_only_when_padding_is_declared",
-           "implies(self.hybrid, piece == sha1(D + zeros((self.piece_length - len(D)) if self.pad else 0)) and "
-           "self.pieces == cat(old(self.pieces), [piece]))"),
+           "implies(self.hybrid, result[1] == sha1(D + zeros((self.piece_length - len(D)) if self.pad else 0)) and "
+           "self.pieces == cat(old(self.pieces), [result[1]]) and result[0] == layer_hash) and "
+           "implies(not self.hybrid, result == layer_hash)"),
           ("C03", "padding_entry_describes_exactly_the_zero_extension",
            "implies(self.hybrid and self.pad and len(D) < self.piece_length, self.padding_file['length'] == self.piece_length - len(D) "
            "and self.padding_file['attr'] == 'p')"),
@@ -222,7 +224,7 @@ def register_filehasher_next(reg):
       loops={0: {"index": "_i0",
                  "ghost_init": {"D": "b''"},
                  "ghost_step": {"D": "D + last_read()"},
-                 "assume_in_body": ["leaves_step(D, last_read())"],
+                 "lemmas_after_body": ["leaves_step(D, last_read())"],
                  "invariant": [
                      ("stream", "D + file_tail(self.current) == old(file_tail(self.current))"),
                      ("blocks_are_the_leaves", "blocks == leaves(D)"),
